@@ -1049,7 +1049,7 @@ func rawName(n stdxml.Name) string {
 func c11StructOracle(r *Rng, tier string, rep *Report) {
 	k := 4
 	if tier == "thorough" {
-		k = 5
+		k = 6 // all strings of length <= 6 over the 15 byte classes (12.2M), implementation side only
 	}
 	allStrings(c11Alphabet, k, func(d []byte) { xmlStructural(d, rep, "exh") })
 	n := 20000
